@@ -91,6 +91,9 @@ type inst struct {
 	net  *simNet
 	acc  db.Accessor
 	pool *simPool
+
+	hist   db.Accessor // C02: second (read) connection to the crash DB, used by the emission seam
+	histOK bool
 }
 
 type outMsg struct {
@@ -98,6 +101,7 @@ type outMsg struct {
 	data   []byte
 	except int // node id not to send to (relay source), -1 for none
 	bcast  bool
+	hseq   int64 // C02: number of states persisted to the node's crash DB at the instant this vote left (-1: not sampled)
 }
 
 type ensureRec struct {
@@ -405,6 +409,14 @@ func (n *simNet) Start() {}
 func (n *simNet) Messages(t protocol.Tag) <-chan agreement.Message { return n.chans[t] }
 
 func (n *simNet) push(m outMsg) {
+	m.hseq = -1
+	if n.in.histOK && m.tag == protocol.AgreementVoteTag {
+		// C02 "persisted before sent": sample, in the emitting goroutine and before the message is handed to
+		// the network, how many states the crash DB holds (see persistCheck)
+		if v, err := DecodeVote(m.data); err == nil && v.R.Step >= stepSoft && n.in.sim.owns(n.in.node, v.R.Sender) {
+			m.hseq = histSeq(n.in.hist)
+		}
+	}
 	n.in.mu.Lock()
 	n.in.outbox = append(n.in.outbox, m)
 	n.in.mu.Unlock()
